@@ -32,6 +32,8 @@ def main(argv):
         t0 = time.time()
         n = oracle.selftest(random.Random(seed))
         print("oracle self-test: %d cases ok" % n)
+        from . import hard
+        print("solver self-test: %d cases ok" % hard.selftest())
         for profile, feats in (("dev", ()), ("release", ()), ("dev", ("full",)), ("release", ("full",)),
                                ("release", ("packed",)), ("o0-nochk", ()), ("release", ("full", "packed"))):
             B.build(profile, feats, quiet=False)
